@@ -124,6 +124,42 @@ impl Mat {
         }
         Some(Mat { n, cols })
     }
+    /// column-wise sum (XOR) of two matrices
+    pub fn add(&self, o: &Mat) -> Mat {
+        Mat { n: self.n, cols: self.cols.iter().zip(o.cols.iter()).map(|(a, b)| { let mut c = a.clone(); c.xor_in(b); c }).collect() }
+    }
+    /// basis of { v : (M·v)[r] = 0 for every r in rows }
+    pub fn kernel_on_rows(&self, rows: &[usize]) -> Vec<BitVec> {
+        let n = self.n;
+        // one equation per selected row: its coefficients are that row of M
+        let mut eqs: Vec<BitVec> = rows.iter().map(|&r| { let mut e = BitVec::zero(n); for c in 0..n { if self.cols[c].get(r) { e.set(c, true); } } e }).collect();
+        let mut pivots: Vec<usize> = Vec::new();
+        let mut rank = 0;
+        for c in 0..n {
+            if rank == eqs.len() { break; }
+            if let Some(pr) = (rank..eqs.len()).find(|&r| eqs[r].get(c)) {
+                eqs.swap(rank, pr);
+                let pv = eqs[rank].clone();
+                for r in 0..eqs.len() {
+                    if r != rank && eqs[r].get(c) { eqs[r].xor_in(&pv); }
+                }
+                pivots.push(c);
+                rank += 1;
+            }
+        }
+        let is_pivot: std::collections::HashSet<usize> = pivots.iter().copied().collect();
+        let mut basis = Vec::new();
+        for f in 0..n {
+            if is_pivot.contains(&f) { continue; }
+            let mut v = BitVec::zero(n);
+            v.set(f, true);
+            for (r, &pc) in pivots.iter().enumerate() {
+                if eqs[r].get(f) { v.set(pc, true); }
+            }
+            basis.push(v);
+        }
+        basis
+    }
     pub fn hex_cols(&self) -> Vec<String> {
         self.cols.iter().map(|c| crate::util::hex(&c.to_bytes())).collect()
     }
